@@ -107,6 +107,40 @@ example : (some [45, 45] = none ∨ ([10] : Bytes) = [10]) ∧
     outSeq (some [45, 45]) [10] [[97, 10], [], [99, 10]] = [97, 10, 45, 45, 10, 99, 10] := by
   refine ⟨.inr rfl, by decide, by decide, by decide⟩
 
+/-! ### the "binary file matches" block -/
+
+/-- Full statement: also with bare binary-file messages among the blocks, the single-threaded output is the
+blocks joined by the separator line. -/
+def C08_binary_full : Prop :=
+  ∀ (sep : Option Bytes) (term : Bytes) (items : List (Bytes × Bool)),
+    outSeqB sep term items = joinSep (sepLine sep term) (nonempty (items.map (·.1)))
+
+/-- It fails on the current tree (known finding `binary-file-message-not-separated-single-threaded`):
+`rg -j1 -C1 needle a.txt b.bin c.txt` prints no `--` before `b.bin: binary file matches …` (and `--heading`
+no blank line), `-jN` does. -/
+theorem C08_binary_full_fails : ¬ C08_binary_full := by
+  intro h
+  have := h (some [45, 45]) [10] [([97, 10], false), ([98, 10], true)]
+  revert this
+  decide
+
+/-- **Proved part** (guard: no block is a bare binary-file message): `outSeqB` is `outSeq`, so all of the
+above applies. -/
+theorem C08_binary_partial (sep : Option Bytes) (term : Bytes) (items : List (Bytes × Bool))
+    (hg : ∀ it ∈ items, it.2 = false) : outSeqB sep term items = outSeq sep term (items.map (·.1)) := by
+  unfold outSeqB outSeq
+  have key : ∀ (items : List (Bytes × Bool)) (st : Seq), (∀ it ∈ items, it.2 = false) →
+      items.foldl (seqPrintB sep term) st = (items.map (·.1)).foldl (seqPrint sep term) st := by
+    intro items
+    induction items with
+    | nil => intro st _; rfl
+    | cons it rest ih =>
+      intro st hg
+      have h0 : it.2 = false := hg it List.mem_cons_self
+      simp only [List.foldl_cons, List.map_cons, seqPrintB, h0, Bool.false_eq_true, if_false]
+      exact ih _ (fun x hx => hg x (List.mem_cons_of_mem _ hx))
+  rw [key items {} hg]
+
 /-! ### the block grammar parses uniquely -/
 
 /-- **Parsing inverts joining**: for well-formed blocks (each starts and ends with a line of its file and
